@@ -96,12 +96,12 @@ enum {
   /* enlarged alphabet */
   OP_OBS0B = OP_N_OLD, OP_OBS0Q, OP_DISC0, OP_TREQ, OP_TREQREF, OP_TREL, OP_TOBS, OP_TOBSB, OP_TCLOSE, OP_TRELEASE,
   /* multicast alphabet */
-  OP_MCAST, OP_JUMP_1S,
+  OP_MCAST, OP_JUMP_1S, OP_RSTCHG,
   OP_N
 };
 static const char *op_names[] = {"req(p0)", "req(p1)", "req(p2)", "req(p3)", "req+ref(p0)", "rel(p0)", "obs(p0)", "cancel(p0)", "async(p1)", "trig", "chg", "jump(T-1)", "jump(T+1)", "quiet(p0)", "quiet(p2)",
                                  "obs2(p0)", "obsq(p0)", "disc(p0)", "treq(t0)", "treq+ref(t0)", "rel(t0)", "tobs(t0)", "tobs2(t0)", "tclose(t0)", "trelease(t0)",
-                                 "mcast(m0)", "jump(1s)"};
+                                 "mcast(m0)", "jump(1s)", "chg+rst(p0)"};
 /* the "xops" spaces: every new operation plus the old ones that interact with p0 / t0 / reclamation */
 static const int xops[] = {OP_REQ0, OP_REQ1, OP_REQREF0, OP_REL0, OP_OBS0, OP_CANCEL0, OP_CHG, OP_JUMP_PAST,
                            OP_OBS0B, OP_OBS0Q, OP_DISC0, OP_TREQ, OP_TREQREF, OP_TREL, OP_TOBS, OP_TOBSB, OP_TCLOSE, OP_TRELEASE};
@@ -109,7 +109,10 @@ static const int xops[] = {OP_REQ0, OP_REQ1, OP_REQREF0, OP_REL0, OP_OBS0, OP_CA
 /* the "mops" spaces: a NON request of peer m0 to the multicast group the first endpoint's port listens on; its response is held
  * back for a random leisure (RFC 7252 8.2, up to 5 s) in the send queue: a queued message is the only holder of m0's session
  * until virtual time passes the leisure.  Operations that move time, create other sessions (eviction) and reclaim. */
-static const int mops[] = {OP_MCAST, OP_REQ0, OP_REQ1, OP_REQ2, OP_JUMP_1S, OP_JUMP_BEFORE, OP_JUMP_PAST, OP_QUIET0};
+static const int mops[] = {OP_MCAST, OP_REQ0, OP_REQ1, OP_REQ2, OP_JUMP_1S, OP_JUMP_BEFORE, OP_JUMP_PAST, OP_QUIET0,
+                           /* p0 observes /o; a resource change whose notification p0 answers with a Reset (RFC 7641 3.6: the
+                            * observation ends, the session loses that holder) */
+                           OP_OBS0, OP_RSTCHG};
 #define MOP_N ((int)(sizeof mops / sizeof mops[0]))
 #define NPEER 5               /* UDP peers p0..p3, m0 (talks to the multicast group only) */
 #define P_M0 4
@@ -299,6 +302,7 @@ hnd(coap_resource_t *r, coap_session_t *s, const coap_pdu_t *req, const coap_str
   coap_add_data(resp, 2, (const uint8_t *)"ok");
 }
 
+static int rst_next_notif; /* p0 answers the next notification it receives with a Reset */
 static void
 raw_rx(const ns_dgram_t *d) {
   struct w_msg m;
@@ -314,6 +318,16 @@ raw_rx(const ns_dgram_t *d) {
         vxp_count(12, 1);
       }
     }
+  if (rst_next_notif && m.code == 69 && m.tkl == 1 && m.token[0] >= 0x30 && m.token[0] <= 0x32 && w_find(&m, 6) &&
+      ns_addr_host(&d->dst) == ns_addr_host(&peer[0]) && ns_addr_port(&d->dst) == ns_addr_port(&peer[0])) {
+    /* p0 rejects this notification: Reset with its message id; the observation it belongs to is over */
+    uint8_t rst[4] = {0x70, 0, (uint8_t)(m.mid >> 8), (uint8_t)m.mid};
+    rst_next_notif = 0;
+    M[0].obs &= ~(m.token[0] == 0x30 ? OB_O : m.token[0] == 0x31 ? OB_O2 : OB_OQ);
+    vxp_count(13, 1);
+    ns_inject(&d->dst, &d->src, rst, 4);
+    return;
+  }
   if (m.type == 0) { /* Confirmable notification / separate response: acknowledge */
     uint8_t ack[4] = {0x60, 0, (uint8_t)(m.mid >> 8), (uint8_t)m.mid};
     ns_inject(&d->dst, &d->src, ack, 4);
@@ -627,6 +641,14 @@ do_op(int op) {
       coap_resource_notify_observers(r_obs2, NULL);
     pump();
     break;
+  case OP_RSTCHG:
+    rst_next_notif = 1;
+    coap_resource_notify_observers(r_obs, NULL);
+    pump();
+    rst_next_notif = 0;
+    model_reclaim(); /* the session may have been held by that observation only, and idle past the timeout */
+    pump();
+    break;
   case OP_MCAST: {
     struct w_buf w;
     uint8_t tok = 0x70;
@@ -726,7 +748,7 @@ one_case(uint64_t idx, void *arg) {
     ops[i] = (int)(x % (uint64_t)nalpha);
     if (sp->ext)
       ops[i] = sp->ext == 2 ? mops[ops[i]] : xops[ops[i]];
-    any_new |= sp->ext == 2 ? ops[i] == OP_MCAST : ops[i] >= OP_N_OLD;
+    any_new |= sp->ext == 2 ? ops[i] == OP_MCAST || ops[i] == OP_RSTCHG : ops[i] >= OP_N_OLD;
     x /= (uint64_t)nalpha;
     size_t nl = strlen(op_names[ops[i]]);
     if (i)
@@ -741,6 +763,7 @@ one_case(uint64_t idx, void *arg) {
   max_idle = sp->max_idle;
   ext = sp->ext == 1;
   failed = 0;
+  rst_next_notif = 0;
   trace_len = 0;
   trace[0] = 0;
   memset(M, 0, sizeof M);
@@ -950,9 +973,11 @@ main(int argc, char **argv) {
   vx_ev_int("cases_with_a_disconnect", (long long)vxp_counter(8));
   vx_ev_int("sessions_reclaimed_before_timeout_after_disconnect", (long long)vxp_counter(3));
   vx_ev_int("multicast_responses_released_after_leisure", (long long)vxp_counter(12));
-  vx_ev_str("mops", T ? "(mops) all sequences of depth 1..6 x max_idle_sessions {0,1,2} over 8 operations that contain the first one: {NON request of peer m0 to "
+  vx_ev_int("notifications_answered_with_reset", (long long)vxp_counter(13));
+  vx_ev_str("mops", T ? "(mops) all sequences of depth 1..6 x max_idle_sessions {0,1,2} over 10 operations: {NON request of peer m0 to "
                         "the multicast group (the response waits for a random leisure of up to 5 s in the send queue: a queued message is the only holder of "
-                        "the session), request p0 / p1 / p2, jump 1 s / timeout-1s / timeout+1s, unanswered datagram from p0}; the model counts a queued "
+                        "the session), request p0 / p1 / p2, jump 1 s / timeout-1s / timeout+1s, unanswered datagram from p0, p0 observes /o, resource change whose "
+                        "notification p0 answers with a Reset (the observation ends)} that contain mcast or the Reset operation; the model counts a queued "
                         "response as a holder until it is seen on the wire"
                       : "(mops) as in thorough, depth 1..5");
   vx_ev_rule(T ? "(ops) all operation sequences of depth 1..6 x max_idle_sessions {0,1,2} "
